@@ -333,20 +333,30 @@ impl C13 {
             out.mismatch(ctx, "digest_threw", format!("Hash256Writer threw: {}", t), json!({"ops": ops}));
             return Ok(());
         }
-        if r["got"] != r["want"] {
-            out.mismatch(
-                ctx,
-                "digest_is_not_sha256",
-                format!("digestHex() is not the SHA-256 of the {} bytes written ({} vs {})", r["bytes"], r["got"], r["want"]),
-                json!({"ops": ops, "bytes": r["bytes"], "got": r["got"], "want": r["want"]}),
-            );
+        let tap_complete = r["tapComplete"] == json!(true);
+        if tap_complete {
+            if r["got"] != r["want"] {
+                out.mismatch(
+                    ctx,
+                    "digest_is_not_sha256",
+                    format!("digestHex() is not the SHA-256 of the {} bytes written ({} vs {})", r["bytes"], r["got"], r["want"]),
+                    json!({"ops": ops, "bytes": r["bytes"], "got": r["got"], "want": r["want"]}),
+                );
+            }
+        } else if r["got"] == r["model"] {
+            // the byte stream is not observable any more (the writer no longer funnels through one method), but the
+            // digest is the SHA-256 of the documented encoding of what was written
+            out.label("digest_explained_by_reference_encoding");
+        } else {
+            // neither observable nor the documented encoding: nothing to compare with (an implementation may change both)
+            out.label("digest_unobservable");
         }
-        if r["incomplete"].as_array().map(|a| !a.is_empty()).unwrap_or(false) {
+        if r["insensitive"].as_array().map(|a| !a.is_empty()).unwrap_or(false) {
             out.mismatch(
                 ctx,
-                "digest_encoding_drops_string_bytes",
-                format!("a string written to the hash does not reach it in full: {}", r["incomplete"]),
-                json!({"ops": ops, "incomplete": r["incomplete"]}),
+                "digest_ignores_part_of_a_string",
+                format!("changing one character of a written string does not change the digest: {}", r["insensitive"]),
+                json!({"ops": ops, "insensitive": r["insensitive"]}),
             );
         }
         let bytes = r["bytes"].as_u64().unwrap_or(0);
